@@ -18,6 +18,7 @@ type Decls struct {
 	strOrder []string
 	structs  map[string]*types.Struct
 	boxes    map[string]bool
+	ptrBoxes []ptrBox // boxed pointer types (payloads of interface parameters are allocated objects)
 	axioms   []string
 }
 
@@ -29,7 +30,7 @@ func newDecls() *Decls {
 	d.raw("dt Slice", "(declare-datatypes ((Slice 0)) (((mk-slice (sl-base Int) (sl-off Int) (sl-len Int) (sl-cap Int)))))")
 	d.raw("slen", "(declare-fun slen (Str) Int)")
 	d.raw("sat", "(declare-fun sat (Str Int) Int)")
-	d.raw("slen-ax", "(assert (forall ((s Str)) (! (and (>= (slen s) 0) (<= (slen s) 4611686018427387904)) :pattern ((slen s)))))")
+	d.raw("slen-ax", "(assert (forall ((s Str)) (! (and (>= (slen s) 0) (<= (slen s) 1152921504606846976)) :pattern ((slen s)))))")
 	d.raw("sat-ax", "(assert (forall ((s Str) (i Int)) (! (and (<= 0 (sat s i)) (<= (sat s i) 255)) :pattern ((sat s i)))))")
 	d.raw("str!empty", "(declare-const str!empty Str)")
 	d.raw("str!empty-ax", "(assert (= (slen str!empty) 0))")
@@ -307,6 +308,11 @@ func intRange(t types.Type) (lo, hi string, wrap string, ok bool) {
 }
 
 // box function for a concrete type into Iface.
+type ptrBox struct {
+	unbox string
+	id    int
+}
+
 func (d *Decls) box(t types.Type) (boxf, unboxf string, id int) {
 	id = d.typeID(t)
 	key := typeKeyName(t)
@@ -318,6 +324,9 @@ func (d *Decls) box(t types.Type) (boxf, unboxf string, id int) {
 		d.raw("fun box!"+key, fmt.Sprintf("(declare-fun %s (%s) Iface)", boxf, s))
 		d.raw("fun unbox!"+key, fmt.Sprintf("(declare-fun %s (Iface) %s)", unboxf, s))
 		d.raw("ax box!"+key, fmt.Sprintf("(assert (forall ((x %s)) (! (and (= (%s (%s x)) x) (= (dyn (%s x)) %d)) :pattern ((%s x)))))", s, unboxf, boxf, boxf, id, boxf))
+		if _, isPtr := t.Underlying().(*types.Pointer); isPtr {
+			d.ptrBoxes = append(d.ptrBoxes, ptrBox{unboxf, id})
+		}
 		d.raw("ax unbox!"+key, fmt.Sprintf("(assert (forall ((i Iface)) (! (=> (= (dyn i) %d) (= (%s (%s i)) i)) :pattern ((%s i)))))", id, boxf, unboxf, unboxf))
 	}
 	return
